@@ -104,6 +104,9 @@ Proof. vm_compute. eexists. eexists. repeat split. Qed.
 (* the functions this property's model is an abstraction of still have the control / locking / shared-state skeleton the
    model was written against (Skeletons.v, by hand; Extracted.v, regenerated from /repo) *)
 Theorem c02_code_skeletons :
+  (* over HTTP every call builds its own request with its own copy of the header object the application passed in: concurrent
+     calls of one client share no map *)
+  JRGen.Extracted.http_header_assignment = ["hreq.Header = requestHeader.Clone()"]%string /\
   (* the hand-over channel is unbuffered: a request that was handed over is in the loop's hands (registered, or failed) and
      none can be stranded in a queue when the loop ends; the response channel of a request holds one response, so
      delivering to it never blocks (closeInFlight under its lock, a response racing the caller's cancellation) *)
